@@ -147,6 +147,52 @@ def timer_late_oracle(case, out):
     return None
 
 
+def gen_start_case(rng):
+    """two periodic jobs (periods 1 and 50 units, or similar) run by start() — not advance_to — for > 100 items, ended by a dispose
+    action; on the datetime clock the items of the two jobs coincide every 50 units: every tick must still be on its grid"""
+    kind = rng.choice(["hist", "hist", "test", "vts"])
+    unit = 1000 if kind == "hist" else 1
+    p1, p2 = unit * rng.choice([1, 1, 2]), unit * rng.choice([50, 25, 10])
+    T = unit * rng.choice([120, 160, 230])
+    return {"op": "start_case", "sched": kind, "clock": 0, "p1": p1, "p2": p2, "T": T,
+            "tz_offset_min": rng.choice([None, 120]) if kind == "hist" else None}
+
+
+def _run_start_case(case):
+    rig = vc.Rig(case)
+    calls = []
+    handles = []
+
+    def stop_all(sc, st):
+        for h in handles:
+            h.dispose()
+
+    rig.s.schedule_absolute(rig.abs_(case["T"]), stop_all)   # scheduled first: at a tie it runs before the ticks
+    for pid, p in ((1, case["p1"]), (2, case["p2"])):
+        def action(state, pid=pid):
+            calls.append([pid, rig.clock(), state])
+            return state + 1
+
+        handles.append(rig.s.schedule_periodic(rig.rel(p), action, 0))
+    rig.VTS.start(rig.s)
+    return {"calls": calls, "clock": rig.clock()}
+
+
+def start_case_oracle(case, out):
+    exp = []
+    for pid, p in ((1, case["p1"]), (2, case["p2"])):
+        k = 1
+        while k * p < case["T"]:
+            exp.append([pid, k * p, k - 1])
+            k += 1
+    got = sorted(out["calls"], key=lambda c: (c[0], c[2]))
+    if got != sorted(exp, key=lambda c: (c[0], c[2])):
+        bad = [c for c in got if c[1] != (c[2] + 1) * (case["p1"] if c[0] == 1 else case["p2"])][:4]
+        return (f"periodic jobs with periods {case['p1']} and {case['p2']} run by start() until a dispose at {case['T']}: "
+                f"{len(got)} calls, expected {len(exp)}; calls off the grid k*period (job, clock, state): {bad}")
+    return None
+
+
 def cases(rng, tier):
     for _ in range(fw.tier_scale(tier, 1600, 16000)):
         yield vc.gen_periodic(rng, catch_p=0.15, raise_p=0.3,
@@ -157,6 +203,8 @@ def cases(rng, tier):
         yield vc.gen_catch_siblings(rng)
     for _ in range(fw.tier_scale(tier, 500, 5000)):
         yield gen_timer_late(rng)
+    for _ in range(fw.tier_scale(tier, 40, 400)):
+        yield gen_start_case(rng)
     for _ in range(fw.tier_scale(tier, 120, 1200)):
         yield gen_nts(rng)
     for _ in range(fw.tier_scale(tier, 200, 2000)):
@@ -206,6 +254,8 @@ def el_model_request(case):
 
 
 def model_request(case):
+    if case["op"] == "start_case":
+        return None   # oracle only: the periodic model has no start() loop
     if case["op"] == "timer_late":
         return {"op": "tmr_script", "clock": case["clock"], "due0": case["due0"], "period": case["period"], "blockers": case["blockers"],
                 "obs_sleep": case["obs_sleep"], "T": case["T"]}
@@ -362,6 +412,9 @@ def _run_timer(case):
 
 
 def impl(case):
+    if case["op"] == "start_case":
+        st, res = vc.alarm_timeout(_run_start_case, (case,))
+        return res if st == "ok" else {"hang": True, "watchdog_s": vc.WATCHDOG_S}
     if case["op"] == "timer_late":
         st, res = vc.alarm_timeout(_run_timer_late, (case,))
         return res if st == "ok" else {"hang": True, "watchdog_s": vc.WATCHDOG_S}
@@ -382,7 +435,7 @@ def canon_impl(case, out):
         return {"hang": True} if out.get("hang") else {"seen": out["seen"], "clock": out["clock"]}
     if case["op"] == "el_case":
         return {"hang": True} if out.get("hang") else {"log": out["log"]}
-    return out if case["op"] in ("timer_case", "nts_case", "timer_late") else vc.canon_impl(case, out)
+    return out if case["op"] in ("timer_case", "nts_case", "timer_late", "start_case") else vc.canon_impl(case, out)
 
 
 def canon_model(case, resp):
@@ -416,6 +469,8 @@ def el_oracle(case, out):
 def oracle(case, out):
     if out.get("hang"):
         return "advance_to did not return within the watchdog"
+    if case["op"] == "start_case":
+        return start_case_oracle(case, out)
     if case["op"] == "timer_late":
         return timer_late_oracle(case, out)
     if case["op"] == "nts_case":
@@ -440,6 +495,8 @@ def oracle(case, out):
 
 
 def nontrivial(case, out):
+    if case["op"] == "start_case":
+        return len(out.get("calls", [])) > 100
     if case["op"] == "timer_late":
         return len(out.get("seen", [])) >= 2 and (bool(case["blockers"]) or any(case["obs_sleep"]))
     if case["op"] == "el_case":
@@ -455,6 +512,9 @@ def nontrivial(case, out):
 
 
 def bucket(case, out):
+    if case["op"] == "start_case":
+        yield "start-run:" + case["sched"]
+        return
     if case["op"] == "timer_late":
         yield "timer-late:" + ("absolute" if case["absolute"] else "relative")
         if case["blockers"]:
